@@ -196,6 +196,8 @@ def run(ctx, sess):
     _cache_validity(ctx, P)
     _guarded_caches(ctx, P)
     _open_strict(ctx, P)
+    ctx.rule('C04.12', 'a failed read is not reported as `nothing there`: where a caller answers a result code of a callee (NOT_FOUND, EMPTY) with success, the callee does not return that code on a path on which one of its read-chain calls failed')
+    _not_found_rule(ctx, P)
     # the value the gates compare with is the CRC-32C in every implementation (C04's three-bit clause rests on it)
     ctx.rule('C04.11', '"at most three flipped bits": the function the gates compare with is the plain CRC-32C register update in every implementation the build can select: kernels, framing and - for the intrinsic implementations - a single ordered chain of steps that tiles the input (shared with C18.2-C18.5); the minimum distance itself is the polynomial\'s')
     from .common import relay
@@ -879,3 +881,63 @@ def _open_strict(ctx, P):
                    'with %s() failed (not one of %s) the open carries on: it reads further chunks or reports success, and the caller gets a file whose content silently lacks what the damaged chunk described'
                    % (ev.callee, sorted(OPEN_BENIGN.get(ev.callee, {})) or 'the benign codes: none'), w.render() if w else None)
     ctx.floor('read-chain calls of the open path', n, 15)
+
+
+def _not_found_rule(ctx, P):
+    """a failed read is not turned into 'there is nothing': where a caller maps a result code of G to success,
+    G does not return that code on a path on which a read-chain call failed"""
+    codes = {it['name']: it['v'] for it in P.enum('jls_error_code_e')['items']}
+    benign = {codes['JLS_ERROR_NOT_FOUND']: 'JLS_ERROR_NOT_FOUND', codes['JLS_ERROR_EMPTY']: 'JLS_ERROR_EMPTY'}
+    # (callee, code) pairs that some caller answers with success
+    mapped = {}
+    for fn in P.all_functions():
+        if fn.file not in ('src/core.c', 'src/reader.c', 'src/track.c', 'src/copy.c'):
+            continue
+        for c in fn.calls():
+            g = P.functions.get(c.callee)
+            if g is None or g.ret != 'i32':
+                continue
+            # rv = g(...); if (rv == CODE) return 0;
+            var = None
+            for ev in c.block.events[c.idx + 1:]:
+                if ev.k in ('store', 'decl') and ev.e is not None:
+                    rhs = ev.e if ev.k == 'decl' else ev.store_parts()[1]
+                    if rhs is not None and strip_casts(rhs).get('id') == c.e.get('id'):
+                        var = ev.name if ev.k == 'decl' else strip_casts(ev.store_parts()[0]).get('name')
+            if var is None:
+                continue
+            for b in fn.blocks.values():
+                ci = compare_info(b.cond) if b.cond is not None else None
+                if ci is None:
+                    continue
+                l, r, eq_label = ci
+                for x, y in ((l, r), (r, l)):
+                    if strip_casts(x).get('name') == var and const_of(y) in benign:
+                        i_ = [k for k, (s_, l_) in enumerate(b.succs) if l_ == eq_label]
+                        if i_ and find_path(fn, (b, i_[0]), lambda e2, facts: 'stop' if e2.k == 'call' else
+                                            ('target' if (e2.k == 'ret' and ret_class(fn, e2, facts) == 'zero') else None)) is not None:
+                            mapped.setdefault(g.name, {})[const_of(y)] = fn.name
+    n = 0
+    for gname, cmap in sorted(mapped.items()):
+        g = P.functions[gname]
+        ctx.saw(g, 1)
+        for c in g.calls():
+            if c.callee not in READ_CHAIN and not c.callee.startswith(('jls_raw_chunk_seek', 'jls_core_rd_chunk')):
+                continue
+            st = nonzero_starts(g, c)
+            if not st or st == 'returned':
+                continue
+            n += 1
+            bad = None
+            for start, facts in st:
+                w = find_path(g, start, lambda e2, facts_: 'target' if (e2.k == 'ret' and e2.e is not None and const_of(strip_casts(e2.e)) in cmap) else
+                              ('stop' if (e2.k == 'call' and e2.callee in READ_CHAIN) else None), start_facts=facts)
+                if w is not None:
+                    bad = w
+                    break
+            ctx.ob('C04.12', bad is None, gname, 'failure of %s()' % c.callee, c.where(),
+                   'never answered with a code that %s takes for `no entries`' % sorted(set(cmap.values()))[0] if bad is None else
+                   'when %s() fails (a damaged chunk), %s returns %s, which %s answers with success and nothing delivered: entries that were written are reported as absent' %
+                   (c.callee, gname, '/'.join(benign[v] for v in cmap), sorted(set(cmap.values()))[0]),
+                   bad.render() if bad else None)
+    ctx.floor('read-chain calls in functions whose `not found` is mapped to success', n, 3)
